@@ -67,13 +67,50 @@ def run(pid, tier, seed, replay=None):
         # coverage-directed bulk: many tight network-simplex instances, only executions taking rare actions are validated
         bulk = [{"seed": rng.randint(0, 10 ** 9), "count": 3000 if tier == "quick" else 40000} for _ in range(14)]
         cov = {}
+        bulk_steps = []
         for r in run_tasks("flow", "run_ns_bulk", bulk, timeout=600):
             if not isinstance(r, dict) or "kept" not in r:
                 raise tlc.MachineryError("network-simplex bulk worker failed: " + str(r)[:300])
             trs += r["kept"]
+            bulk_steps += r.get("steps", [])
             for k, v in r["cov"].items():
                 cov[k] = cov.get(k, 0) + v
         ck.extra["network_simplex_coverage_directed_generation"] = cov
+        # step level: whole pivot sequences (snapshot hooks) replayed as NetSimplex!Pivot actions with the design spec's
+        # invariants evaluated after every pivot (diagnostic divergences; the return level above decides C09)
+        sc = [drv.gen_ns_tight(rng) for _ in range(400 if tier == "quick" else 6000)]
+        sc += [{"n": c["n"], "arcs": c["arcs"], "supplies": c["supplies"]} for c in c2 if c.get("supplies") and
+               len({(a[0], a[1]) for a in c["arcs"]}) == len(c["arcs"])][:200 if tier == "quick" else 2000]
+        st = [r for r in run_tasks("flow", "run_ns_steps", sc, timeout=20) if isinstance(r, dict) and "steps" in r]
+        if len(st) < len(sc) // 2:
+            raise tlc.MachineryError("network-simplex step traces could not be recorded (%d of %d)" % (len(st), len(sc)))
+        st += bulk_steps         # the executions the coverage-directed generator kept (rare pivots, long sequences)
+        sv = ck.validate(DIR, "NsTrace", st, "network_simplex pivot sequences (snapshot hooks)", timeout=3000)
+        for t, v in zip(st, sv):
+            for d in v.get("div", []):
+                ck.divergences["ns_step:" + d] = ck.divergences.get("ns_step:" + d, 0) + 1
+        ck.extra["network_simplex_step_level"] = {"executions": len(st), "pivots_replayed": sum(v.get("pivots", 0) for v in sv),
+                                                  "executions_with_divergence": sum(1 for v in sv if v.get("div"))}
+        # binding demonstration for the step level: corrupt one logged field of a pivot record
+        import copy as _copy
+        fired = {}
+        ctl2 = []
+        for t, v in zip(st, sv):
+            if v.get("div") or len(t["steps"]) < 3:
+                continue
+            k = len(t["steps"]) - 1
+            c = _copy.deepcopy(t); c["steps"][k]["flow"][c["steps"][k]["entering"] - 1] += 1; ctl2.append((c, "Flow."))
+            c = _copy.deepcopy(t); c["steps"][k]["pi"][0] += 1; ctl2.append((c, "Duals."))
+            c = _copy.deepcopy(t); c["steps"][k]["tree"] = c["steps"][k - 1]["tree"][:-1] + [c["steps"][k - 1]["tree"][-1]] if False else c["steps"][k]["tree"][1:] + [c["steps"][k]["tree"][0]]
+            c["steps"][k]["tree"] = c["steps"][k]["tree"][:-1]; ctl2.append((c, "Basis."))
+            c = _copy.deepcopy(t); c["steps"][k]["delta"] += 1; ctl2.append((c, "Pivot.cost_change"))
+            if len(ctl2) >= 8:
+                break
+        if ctl2:
+            for (c, exp), v in zip(ctl2, ck.validate(DIR, "NsTrace", [c for c, _ in ctl2], "step-level negative controls")):
+                fired[exp] = fired.get(exp, 0) + any(d.startswith(exp) for d in v.get("div", []))
+            for exp, k in fired.items():
+                ck.control(f"corrupted pivot record flagged by the NetSimplex guard {exp}* ({k} variants)", k > 0, str(fired))
     vs = ck.validate(DIR, "FlowTrace", trs, "recorded results", timeout=3000)
     ck.classify(trs, vs, nontrivial=lambda t, v: len(t.get("arcs", [])) >= 2 or len(t.get("matrix", [])) >= 2)
     for t in trs:
